@@ -24,7 +24,7 @@ func init() { register(c18{}) }
 func (c18) ID() string    { return "C18" }
 func (c18) Level() string { return "exploration" }
 func (c18) Rule() string {
-	return "non-interference over pairs of runs: CONNECT packets (with/without will, properties, authentication fields, from the C01 generator) x pairs of equally long, non-empty user name and/or password values — random, differing in one byte, equal to other field contents (client id, will topic, a user property, the authentication data), printable and non-printable, lengths 1..65535 — built through the API and decoded from a reference-encoded frame; Dump and String of the two packets must be byte-identical. A canary monitor additionally searches the output for >=3-byte fragments of the secret in raw, %v, %q, %x and base64 renderings to say where a leak is; only the pair relation decides. distinct = (packet signature, credential-pair class, path); non-trivial = all (credentials always present)"
+	return "non-interference over pairs of runs: CONNECT packets (with/without will, properties, authentication fields, from the C01 generator) x pairs of equally long, non-empty user name and/or password values — random, differing in one byte, equal to other field contents (client id, will topic, a user property, the authentication data), printable and non-printable, lengths 1..65535 — built through the API, decoded from a reference-encoded frame, and left behind in a Connect value that is reused to decode a CONNECT without credentials; Dump and String of the two packets must be byte-identical. A canary monitor additionally searches the output for >=3-byte fragments of the secret in raw, %v, %q, %x and base64 renderings to say where a leak is; only the pair relation decides. distinct = (packet signature, credential-pair class, path); non-trivial = all (credentials always present)"
 }
 func (c18) Assumptions() []string {
 	return []string{"the length of a credential and whether it is empty may show (the property allows it)"}
@@ -214,6 +214,21 @@ func (c18) Run(c *run.Ctx, phase, idx int) {
 	q2, e2 := bind.Build(a2)
 	if e1 == nil && e2 == nil {
 		compare("api", q1, q2, nil)
+	}
+	// a Connect value that held the credentials and is then reused to decode
+	// a CONNECT without any: whatever is left of them must not show either
+	if e1 == nil && e2 == nil {
+		bare := a.Clone()
+		bare.ConnFlags &^= ref.CFUsername | ref.CFPassword
+		bare.Username, bare.Password = "", nil
+		fb, _ := ref.Encode(bare)
+		hb, _ := ref.ParseHeader(fb)
+		o1, _ := bind.Build(a1)
+		o2, _ := bind.Build(a2)
+		var d1, d2 error
+		if pan := mon.Guard(func() { d1 = o1.UnmarshalBinary(fb[hb.HdrLen:]); d2 = o2.UnmarshalBinary(fb[hb.HdrLen:]) }); pan == nil && d1 == nil && d2 == nil {
+			compare("decode-over", o1, o2, fb)
+		}
 	}
 	// decoded from the wire
 	f1, _ := ref.Encode(a1)
